@@ -88,7 +88,11 @@ class C18(Check):
                                'munu_stripe_le_46', 'munu_stripe_gt_46', 'munu_points_fw', 'munu_points_bw',
                                'munu_frame_pole_points', 'munu_icrs_pole_points', 'munu_circle_points',
                                'ang_points', 'ang_exact_pole_points', 'ang_int_points', 'vec_points',
-                               'vec_within_1e-7rad_of_pole']
+                               'vec_within_1e-7rad_of_pole',
+                               'munu_source_unmodified_checks', 'munu_repeat_transforms', 'munu_repeat_bit_identical',
+                               'munu_other_stripe_transforms', 'munu_object_roundtrips',
+                               'gc_input_unmodified_checks', 'gc_repeat_calls', 'gc_repeat_bit_identical',
+                               'ang_input_unmodified_checks', 'ang_repeat_calls']
                               + ['gc_sep_decade_1e%+d' % d for d in DECADES])
     REQUIRED_REACH = {'astro.gcirc': 0.85, 'coord.stripe_to_eta': 1.0, 'coord.stripe_to_incl': 1.0,
                       'coord.radec_to_munu': 1.0, 'coord.munu_to_radec': 1.0,
@@ -449,6 +453,7 @@ class C18(Check):
             tag = 'units=%d' % un
             tol = REL * ref + FLOOR
 
+            before = [x.copy() for x in (a1, d1, a2, d2)]
             r = gcirc(a1, d1, a2, d2, units=un)
             out.count('gc_units%d_evals' % un, n)
             out.expect(isinstance(r, np.ndarray) and r.shape == (n,), 'shape', '%s: result %r for %d pairs'
@@ -469,7 +474,7 @@ class C18(Check):
                       '%s: gcirc(p1,p2) != gcirc(p2,p1)' % tag, ratio=ds / (1e-12 * ref + FLOOR), fwd=r, rev=rs, **wit)
             # identical points
             for (x, y) in ((a1, d1), (a2, d2)):
-                z = np.asarray(gcirc(x, y, x.copy(), y.copy(), units=un), dtype=np.float64).reshape(-1)
+                z = np.asarray(gcirc(x, y, x, y, units=un), dtype=np.float64).reshape(-1)       # the very same arrays twice
                 self._all(out, z == 0.0, 'identical-zero', '%s: distance of a point from itself is not 0' % tag, got=z, ra1=x, dec1=y)
             # 2-D arrays
             h = n // 2
@@ -500,6 +505,19 @@ class C18(Check):
                     self._all(out, eb <= REL * refb + FLOOR, 'vector-formula', 'units=2: scalar-vs-array call differs from the reference',
                               err_rad=eb.astype(np.float64), ref_rad=refb.astype(np.float64), ra2=a2, dec2=d2,
                               ra1=np.full(n, a1[0]), dec1=np.full(n, d1[0]))
+            # purity: the caller's arrays are untouched by all of these calls, and asking again gives the same answer
+            same = np.ones(n, dtype=bool)
+            for x, x0 in zip((a1, d1, a2, d2), before):
+                same &= self._same_bits(x, x0)
+            self._all(out, same, 'inputs-unmodified', '%s: gcirc changed its input arrays' % tag,
+                      ra1_before=before[0], dec1_before=before[1], ra2_before=before[2], dec2_before=before[3], **wit)
+            out.count('gc_input_unmodified_checks', n)
+            ra_ = np.asarray(gcirc(a1, d1, a2, d2, units=un), dtype=np.float64).reshape(-1)
+            dr = np.abs(toradl(ra_) - got[un])
+            self._all(out, ~fin | (np.isfinite(ra_) & (dr <= 1e-12 * ref + FLOOR)), 'repeatable',
+                      '%s: a second call on the same arrays gives a different distance' % tag, first=r, again=ra_, **wit)
+            out.count('gc_repeat_calls', n)
+            out.count('gc_repeat_bit_identical', int(self._same_bits(r, ra_).sum()))
         # the three conventions describe the same points (each re-quantised: refs differ by <= 1e-14)
         for un in (1, 0):
             ok = np.abs(got[un] - got[2]) <= 2 * REL * refs[2] + 2 * FLOOR + 1e-14
@@ -543,21 +561,63 @@ class C18(Check):
                    'frame attributes: incl %r node %r' % (fr.incl, fr.node), stripe=stripe)
         return float(incl)
 
-    def _to_munu(self, lon, lat, stripe, frame_api=False):
-        u, ac, C = self.u, self.ac, self.C
-        if frame_api:
-            m = ac.ICRS(ra=lon * u.deg, dec=lat * u.deg).transform_to(C.SDSSMuNu(stripe=stripe))
-        else:
-            m = ac.SkyCoord(ra=lon * u.deg, dec=lat * u.deg, frame='icrs').transform_to(C.SDSSMuNu(stripe=stripe))
+    def _to_munu(self, lon, lat, stripe, frame_api=False, out=None):
+        src = self._source(lon, lat, 'icrs', stripe, frame_api)
+        snap = self._lonlat(src, 'icrs')
+        m = src.transform_to(self.C.SDSSMuNu(stripe=stripe))
+        if out is not None:
+            self._unmodified(out, src, 'icrs', snap, 'ICRS -> (mu,nu)', stripe=stripe)
         return m
 
-    def _to_icrs(self, mu, nu, stripe, frame_api=False):
-        u, ac, C = self.u, self.ac, self.C
-        if frame_api:
-            b = C.SDSSMuNu(mu=mu * u.deg, nu=nu * u.deg, stripe=stripe).transform_to(ac.ICRS())
-        else:
-            b = ac.SkyCoord(mu=mu * u.deg, nu=nu * u.deg, frame=C.SDSSMuNu(stripe=stripe)).transform_to(ac.ICRS())
+    def _to_icrs(self, mu, nu, stripe, frame_api=False, out=None):
+        src = self._source(mu, nu, 'munu', stripe, frame_api)
+        snap = self._lonlat(src, 'munu')
+        b = src.transform_to(self.ac.ICRS())
+        if out is not None:
+            self._unmodified(out, src, 'munu', snap, '(mu,nu) -> ICRS', stripe=stripe)
         return b
+
+    def _source(self, lon, lat, kind, stripe, frame_api):
+        """The coordinate object a caller would hold: ICRS / SDSSMuNu frame or SkyCoord (arrays or scalars)."""
+        u, ac, C = self.u, self.ac, self.C
+        if kind == 'icrs':
+            return ac.ICRS(ra=lon * u.deg, dec=lat * u.deg) if frame_api else \
+                ac.SkyCoord(ra=lon * u.deg, dec=lat * u.deg, frame='icrs')
+        return C.SDSSMuNu(mu=lon * u.deg, nu=lat * u.deg, stripe=stripe) if frame_api else \
+            ac.SkyCoord(mu=lon * u.deg, nu=lat * u.deg, frame=C.SDSSMuNu(stripe=stripe))
+
+    def _lonlat(self, obj, kind):
+        """Fresh *copies* of an object's longitude / latitude in degrees (``.deg`` alone is a view of the
+        object's cached representation, which would follow any in-place change made by the code under test)."""
+        a, b = (obj.ra, obj.dec) if kind == 'icrs' else (obj.mu, obj.nu)
+        return (np.array(a.to_value(self.u.deg), dtype=np.float64, copy=True),
+                np.array(b.to_value(self.u.deg), dtype=np.float64, copy=True))
+
+    @staticmethod
+    def _same_bits(a, b):
+        a = np.ascontiguousarray(np.atleast_1d(a), dtype=np.float64)
+        b = np.ascontiguousarray(np.atleast_1d(b), dtype=np.float64)
+        if a.shape != b.shape:
+            return np.zeros(max(a.size, 1), dtype=bool)
+        return a.view(np.int64) == b.view(np.int64)
+
+    def _unmodified(self, out, obj, kind, snap, what, counter='munu_source_unmodified_checks', **wit):
+        """The caller's coordinate object must read exactly as before it was handed to transform_to."""
+        lon, lat = self._lonlat(obj, kind)
+        ok = self._same_bits(lon, snap[0]) & self._same_bits(lat, snap[1])
+        out.count(counter, int(ok.size))
+        return self._all(out, ok, 'source-unmodified', '%s: the coordinate object handed to transform_to reads differently afterwards' % what,
+                         lon_before=snap[0], lat_before=snap[1], lon_after=lon, lat_after=lat, **wit)
+
+    def _repeat(self, out, first, again, tol, what, **wit):
+        """A second transform of the same source object must give the first answer again (both are within
+        ``tol`` of the model, hence within 2*tol of each other; bit-identical results are counted)."""
+        e = S.sep_vec(self._v(*first), self._v(*again)).astype(np.float64)
+        fin = np.isfinite(first[0]) & np.isfinite(first[1])
+        out.count('munu_repeat_transforms', int(e.size))
+        out.count('munu_repeat_bit_identical', int((self._same_bits(first[0], again[0]) & self._same_bits(first[1], again[1])).sum()))
+        return self._all(out, ~fin | (e <= 2 * tol), 'repeatable', '%s: transforming the same object again gives a different answer' % what,
+                         ratio=e / (2 * tol), err_rad=e, lon_first=first[0], lat_first=first[1], lon_again=again[0], lat_again=again[1], **wit)
 
     @staticmethod
     def _v(lon, lat, lon0=0.0):
@@ -571,8 +631,14 @@ class C18(Check):
         ra, dec = f64(case['icrs']['lon']), f64(case['icrs']['lat'])
         n2 = ra.size
         n = n2 // 2
-        m = self._to_munu(ra, dec, stripe, api)
-        mu, nu = np.asarray(m.mu.deg, dtype=np.float64), np.asarray(m.nu.deg, dtype=np.float64)
+        SDSSMuNu, ICRS = self.C.SDSSMuNu, self.ac.ICRS
+        src = self._source(ra, dec, 'icrs', stripe, api)         # the object a caller keeps
+        snap = self._lonlat(src, 'icrs')
+        inrange = (ra >= 0) & (ra < 360)
+        if not bool(((snap[0] == ra) | ~inrange).all() and self._same_bits(snap[1], dec).all()):      # (-0.0 is stored as 0.0)
+            out.fail('harness-error', 'astropy did not store the coordinates as passed')
+        m = src.transform_to(SDSSMuNu(stripe=stripe))
+        mu, nu = self._lonlat(m, 'munu')
         out.expect(int(m.stripe) == stripe and mu.shape == ra.shape, 'transform-frame',
                    'result frame has stripe %r, shape %r' % (m.stripe, mu.shape))
         wit = dict(stripe=stripe, ra=ra, dec=dec, mu=mu, nu=nu)
@@ -588,14 +654,39 @@ class C18(Check):
         self._all(out, ~fin | (e <= tfw), 'rotation-model',
                   'ICRS -> (mu,nu) is not the rotation by stripe_to_incl(%d)=%g about the node RA 95' % (stripe, incl),
                   ratio=e / tfw, err_rad=e, tol_rad=tfw, **wit)
-        back = m.transform_to(self.ac.ICRS()) if not api else self._to_icrs(mu, nu, stripe, True)
-        ra_b, dec_b = np.asarray(back.ra.deg, dtype=np.float64), np.asarray(back.dec.deg, dtype=np.float64)
+        self._unmodified(out, src, 'icrs', snap, 'ICRS -> (mu,nu)', stripe=stripe)
+        back = m.transform_to(ICRS())                            # round trip on the objects themselves
+        ra_b, dec_b = self._lonlat(back, 'icrs')
+        self._unmodified(out, m, 'munu', (mu, nu), '(mu,nu) -> ICRS (second leg of the round trip)', stripe=stripe)
         finb = np.isfinite(ra_b) & np.isfinite(dec_b)
         self._all(out, ~fin | finb, 'never-nan', '(mu,nu) -> ICRS returned a non-finite coordinate', ra_back=ra_b, dec_back=dec_b, **wit)
         e = S.sep_vec(vin, self._v(ra_b, dec_b)).astype(np.float64)
         trt = tfw + tol_pos(cdec)
         self._all(out, ~(fin & finb) | (e <= trt), 'roundtrip', 'ICRS -> (mu,nu) -> ICRS does not return the starting point',
                   ratio=e / trt, err_rad=e, tol_rad=trt, ra_back=ra_b, dec_back=dec_b, **wit)
+        # ... and with what the starting *object* says now
+        ra_now, dec_now = self._lonlat(src, 'icrs')
+        e = S.sep_vec(self._v(ra_now, dec_now), self._v(ra_b, dec_b)).astype(np.float64)
+        self._all(out, ~(fin & finb) | (e <= trt), 'roundtrip', 'ICRS -> (mu,nu) -> ICRS differs from the starting coordinate object',
+                  ratio=e / trt, err_rad=e, tol_rad=trt, ra_start_now=ra_now, dec_start_now=dec_now, ra_back=ra_b, dec_back=dec_b, **wit)
+        out.count('munu_object_roundtrips', n2)
+        # the same source object again: same stripe, another stripe, the first stripe once more
+        self._repeat(out, (mu, nu), self._lonlat(src.transform_to(SDSSMuNu(stripe=stripe)), 'munu'), tfw,
+                     'ICRS -> (mu,nu)', stripe=stripe, ra=ra, dec=dec)
+        s2 = (stripe + 37) % 91
+        incl2 = float(self.C.stripe_to_incl(s2))
+        mo = src.transform_to(SDSSMuNu(stripe=s2))
+        mu_o, nu_o = self._lonlat(mo, 'munu')
+        vfr2 = S.munu_model_inv(ra, dec, incl2, NODE)
+        t2 = tol_pos(np.sqrt((vfr2[:, 0] ** 2 + vfr2[:, 1] ** 2).astype(np.float64)))
+        e = S.sep_vec(vfr2, self._v(mu_o, nu_o, NODE)).astype(np.float64)
+        self._all(out, (e <= t2) & (int(mo.stripe) == s2), 'rotation-model',
+                  'the same ICRS object transformed to another stripe (%d, after %d) is not the rotation by stripe_to_incl=%g' % (s2, stripe, incl2),
+                  ratio=e / t2, err_rad=e, tol_rad=t2, stripe=s2, ra=ra, dec=dec, mu=mu_o, nu=nu_o)
+        out.count('munu_other_stripe_transforms', n2)
+        self._repeat(out, (mu, nu), self._lonlat(src.transform_to(SDSSMuNu(stripe=stripe)), 'munu'), tfw,
+                     'ICRS -> (mu,nu) after another stripe', stripe=stripe, ra=ra, dec=dec)
+        self._unmodified(out, src, 'icrs', snap, 'ICRS -> (mu,nu), four transforms', stripe=stripe)
         # separations preserved: constructed partner (i, i+n) at every scale, and far pairs (i, i+1)
         for a, b, what in ((np.arange(n), np.arange(n) + n, 'partner'), (np.arange(n2 - 1), np.arange(1, n2), 'neighbour')):
             s_in = S.sep_vec(vin[a], vin[b])
@@ -612,8 +703,13 @@ class C18(Check):
         mu, nu = f64(case['munu']['lon']), f64(case['munu']['lat'])
         n2 = mu.size
         n = n2 // 2
-        b = self._to_icrs(mu, nu, stripe, api)
-        ra, dec = np.asarray(b.ra.deg, dtype=np.float64), np.asarray(b.dec.deg, dtype=np.float64)
+        src = self._source(mu, nu, 'munu', stripe, api)
+        snap = self._lonlat(src, 'munu')
+        inrange = (mu >= 0) & (mu < 360)
+        if not bool(((snap[0] == mu) | ~inrange).all() and self._same_bits(snap[1], nu).all()):
+            out.fail('harness-error', 'astropy did not store the coordinates as passed')
+        b = src.transform_to(ICRS())
+        ra, dec = self._lonlat(b, 'icrs')
         wit = dict(stripe=stripe, mu=mu, nu=nu, ra=ra, dec=dec)
         fin = np.isfinite(ra) & np.isfinite(dec)
         self._all(out, fin, 'never-nan', '(mu,nu) -> ICRS returned a non-finite coordinate', **wit)
@@ -627,14 +723,24 @@ class C18(Check):
         self._all(out, ~fin | (e <= tbw), 'rotation-model',
                   '(mu,nu) -> ICRS is not the rotation by stripe_to_incl(%d)=%g about the node RA 95' % (stripe, incl),
                   ratio=e / tbw, err_rad=e, tol_rad=tbw, **wit)
-        m2 = b.transform_to(self.C.SDSSMuNu(stripe=stripe))
-        mu_b, nu_b = np.asarray(m2.mu.deg, dtype=np.float64), np.asarray(m2.nu.deg, dtype=np.float64)
+        self._unmodified(out, src, 'munu', snap, '(mu,nu) -> ICRS', stripe=stripe)
+        m2 = b.transform_to(SDSSMuNu(stripe=stripe))
+        mu_b, nu_b = self._lonlat(m2, 'munu')
+        self._unmodified(out, b, 'icrs', (ra, dec), 'ICRS -> (mu,nu) (second leg of the round trip)', stripe=stripe)
         finb = np.isfinite(mu_b) & np.isfinite(nu_b)
         self._all(out, ~fin | finb, 'never-nan', 'ICRS -> (mu,nu) returned a non-finite coordinate', mu_back=mu_b, nu_back=nu_b, **wit)
         e = S.sep_vec(vfr, self._v(mu_b, nu_b, NODE)).astype(np.float64)
         trt = tbw + tol_pos(cnu)
         self._all(out, ~(fin & finb) | (e <= trt), 'roundtrip', '(mu,nu) -> ICRS -> (mu,nu) does not return the starting point',
                   ratio=e / trt, err_rad=e, tol_rad=trt, mu_back=mu_b, nu_back=nu_b, **wit)
+        mu_now, nu_now = self._lonlat(src, 'munu')
+        e = S.sep_vec(self._v(mu_now, nu_now), self._v(mu_b, nu_b)).astype(np.float64)
+        self._all(out, ~(fin & finb) | (e <= trt), 'roundtrip', '(mu,nu) -> ICRS -> (mu,nu) differs from the starting coordinate object',
+                  ratio=e / trt, err_rad=e, tol_rad=trt, mu_start_now=mu_now, nu_start_now=nu_now, mu_back=mu_b, nu_back=nu_b, **wit)
+        out.count('munu_object_roundtrips', n2)
+        for _ in range(2):
+            self._repeat(out, (ra, dec), self._lonlat(src.transform_to(ICRS()), 'icrs'), tbw, '(mu,nu) -> ICRS', stripe=stripe, mu=mu, nu=nu)
+        self._unmodified(out, src, 'munu', snap, '(mu,nu) -> ICRS, three transforms', stripe=stripe)
         for a, bb, what in ((np.arange(n), np.arange(n) + n, 'partner'), (np.arange(n2 - 1), np.arange(1, n2), 'neighbour')):
             s_in = S.sep_vec(vfr[a], vfr[bb])
             s_out = S.sep_vec(vgot[a], vgot[bb])
@@ -647,8 +753,8 @@ class C18(Check):
         out.count('munu_icrs_pole_points', int((cdec < 1e-6).sum()))
         # scalar coordinates (not arrays) through the same transforms
         for j in (0, n):
-            sm = self._to_munu(f64(case['icrs']['lon'])[j], f64(case['icrs']['lat'])[j], stripe, api)
-            sb = self._to_icrs(mu[j], nu[j], stripe, api)
+            sm = self._to_munu(f64(case['icrs']['lon'])[j], f64(case['icrs']['lat'])[j], stripe, api, out)
+            sb = self._to_icrs(mu[j], nu[j], stripe, api, out)
             smu, snu, sra, sdec = (np.asarray(t, dtype=np.float64) for t in (sm.mu.deg, sm.nu.deg, sb.ra.deg, sb.dec.deg))
             ok = smu.ndim == 0 and snu.ndim == 0 and sra.ndim == 0 and sdec.ndim == 0
             if out.expect(ok, 'shape', 'scalar coordinate gave array result'):
@@ -672,8 +778,8 @@ class C18(Check):
         n = t.size
         mu = NODE + t
         nu = np.zeros(n)
-        b = self._to_icrs(mu, nu, stripe)
-        ra, dec = np.asarray(b.ra.deg, dtype=np.float64), np.asarray(b.dec.deg, dtype=np.float64)
+        b = self._to_icrs(mu, nu, stripe, False, out)
+        ra, dec = self._lonlat(b, 'icrs')
         fin = np.isfinite(ra) & np.isfinite(dec)
         self._all(out, fin, 'never-nan', 'nu=0 -> ICRS returned a non-finite coordinate', stripe=stripe, mu=mu, ra=ra, dec=dec)
         # closed form (DESIGN C18): Dec = asin(sin i sin t'), RA = node + atan2(cos i sin t', cos t'), t' = mu - node
@@ -692,8 +798,8 @@ class C18(Check):
         # the same circle the other way: points on it have nu = 0 and mu = node + t (mod 360)
         ra_in = np.mod((ra_e / S.D2R).astype(np.float64), 360.0)
         dec_in = (dec_e / S.D2R).astype(np.float64)
-        m = self._to_munu(ra_in, dec_in, stripe)
-        mu_g, nu_g = np.asarray(m.mu.deg, dtype=np.float64), np.asarray(m.nu.deg, dtype=np.float64)
+        m = self._to_munu(ra_in, dec_in, stripe, False, out)
+        mu_g, nu_g = self._lonlat(m, 'munu')
         fin = np.isfinite(mu_g) & np.isfinite(nu_g)
         self._all(out, fin, 'never-nan', 'circle point -> (mu,nu) returned a non-finite coordinate', stripe=stripe, ra=ra_in, dec=dec_in)
         vexp = S.munu_model_inv(ra_in, dec_in, incl, NODE)       # exact frame position of the float64 inputs
@@ -710,14 +816,14 @@ class C18(Check):
         nn, q, p = S.munu_triad(incl, NODE)
         mp = f64(case['mu_pole'])
         for sgn in (1.0, -1.0):
-            b = self._to_icrs(mp, np.full(mp.size, sgn * 90.0), stripe)
+            b = self._to_icrs(mp, np.full(mp.size, sgn * 90.0), stripe, False, out)
             e = S.sep_vec(np.broadcast_to(sgn * p, (mp.size, 3)), self._v(np.asarray(b.ra.deg), np.asarray(b.dec.deg))).astype(np.float64)
             cpole = float(np.sqrt(p[0] ** 2 + p[1] ** 2))
             self._all(out, e <= tol_pos(cpole), 'pole-fixed', 'nu=%+g does not map to the pole of the stripe great circle' % (sgn * 90),
                       ratio=e / tol_pos(cpole), err_rad=e, stripe=stripe, mu=mp, ra=np.asarray(b.ra.deg), dec=np.asarray(b.dec.deg))
             lo, la = S.vec_to_lonlat((sgn * p)[None, :])
             rp, dp = np.mod((lo / S.D2R).astype(np.float64), 360.0), (la / S.D2R).astype(np.float64)
-            m = self._to_munu(rp, dp, stripe)
+            m = self._to_munu(rp, dp, stripe, False, out)
             # the float64 pole is within 4e-16 rad of the true one; nu = asin(1 - O(1e-32)) may lose sqrt(2u)
             off = np.abs(PI / 2 - sgn * np.radians(np.asarray(m.nu.deg, dtype=np.float64)))
             self._all(out, off <= tol_pos(0.0), 'pole-fixed', 'the pole of the stripe great circle does not map to nu=%+g' % (sgn * 90),
@@ -787,10 +893,23 @@ class C18(Check):
         n = phi.size
         vref = self._ang_ref(phi, second, lat)
         what = 'angles_to_x(%s, latitude=%s)' % (dt, lat)
-        x = M.angles_to_x(pts.copy(), latitude=lat)
+        orig = pts.copy()
+        x = M.angles_to_x(pts, latitude=lat)
         xl = self._check_vectors(out, x, vref, what, phi=phi, second=second)
+        out.expect(pts.dtype == orig.dtype and pts.tobytes() == orig.tobytes(), 'inputs-unmodified', '%s changed its input array' % what)
+        out.count('ang_input_unmodified_checks', n)
         if xl is not None:
+            x0 = x.copy()
+            x_again = M.angles_to_x(pts, latitude=lat)
+            self._all(out, (np.abs(np.asarray(x_again, dtype=np.float64) - x0) <= 1e-15).all(1), 'repeatable',
+                      '%s: a second call on the same array gives different vectors' % what, first=x0, again=x_again, phi=phi, second=second)
             a = M.x_to_angles(x, latitude=lat)
+            out.expect(x.tobytes() == x0.tobytes(), 'inputs-unmodified', 'x_to_angles(%s) changed its input array' % what)
+            a_again = M.x_to_angles(x, latitude=lat)
+            self._all(out, self._same_bits(np.asarray(a, dtype=np.float64).ravel(), np.asarray(a_again, dtype=np.float64).ravel())
+                      | (np.abs(np.asarray(a, dtype=np.float64) - np.asarray(a_again, dtype=np.float64)).ravel() <= 1e-9), 'repeatable',
+                      'x_to_angles(%s): a second call on the same array gives different angles' % what)
+            out.count('ang_repeat_calls', 2 * n)
             # the vector that was actually handed to x_to_angles is x; it lies within 1e-13 of vref unless
             # the previous clause already failed
             self._check_angles(out, a, vref, lat, 'x_to_angles(%s)' % what, phi_in=phi, phi=phi, second=second)
@@ -818,7 +937,16 @@ class C18(Check):
             return
         vref = xl / nrm[:, None]
         what = 'x_to_angles(%s unit vectors, latitude=%s)' % (dt, lat)
-        a = M.x_to_angles(x.copy(), latitude=lat)
+        x_orig = x.copy()
+        a = M.x_to_angles(x, latitude=lat)
+        out.expect(x.dtype == x_orig.dtype and x.tobytes() == x_orig.tobytes(), 'inputs-unmodified', '%s changed its input array' % what)
+        a_again = M.x_to_angles(x, latitude=lat)
+        if getattr(a_again, 'shape', None) == getattr(a, 'shape', ()):
+            af, ag = np.asarray(a, dtype=np.float64).ravel(), np.asarray(a_again, dtype=np.float64).ravel()
+            self._all(out, self._same_bits(af, ag) | (np.abs(af - ag) <= 1e-9), 'repeatable',
+                      '%s: a second call on the same array gives different angles' % what)
+        out.count('ang_input_unmodified_checks', n)
+        out.count('ang_repeat_calls', n)
         c = self._check_angles(out, a, vref, lat, what, x=x)
         if c is not None and np.isfinite(np.asarray(a, dtype=np.float64)).all():
             xb = M.angles_to_x(np.asarray(a), latitude=lat)
